@@ -274,6 +274,16 @@ def _rejects(ctx, D, limit, maxtrailer):
         r = D.drive([stream])
         if not (r["exc"] is None and r["data"] == [b"X"] and r["finish"] == [b""]) and bad is None:
             bad = (v, r)
+    badt = None
+    for v in [9, 32] + list(range(0x21, 0x7F)) + list(range(0x80, 0x100)):
+        stream = _encode([b"ab"], trailers=[b"X-Trailer: a" + bytes([v]) + b"b"])
+        r = D.drive([stream])
+        if not (r["exc"] is None and r["data"] == [b"ab"] and r["finish"] == [b""]) and badt is None:
+            badt = (v, r)
+    ctx.check(badt is None, "bytes/trailer-value-accepted", q + " | every field-value byte (HTAB, SP, VCHAR, obs-text) in a trailer field",
+              f"a trailer field whose value contains byte 0x{badt[0]:02x} is not accepted: exception {badt[1]['exc']}, body {badt[1]['data']!r}, completion {badt[1]['finish']!r} "
+              "(RFC 9110 5.5: field values may contain any VCHAR, SP, HTAB and obs-text; a body with such trailers must round-trip)" if badt else "",
+              detail="each of the 225 bytes RFC 9110 5.5 allows in a field value, alone in a trailer value")
     ctx.check(bad is None, "bytes/extension-accepted", q + " | every tchar, ';', '=', DQUOTE, SP, HTAB and obs-text byte in an extension",
               f"extension byte 0x{bad[0]:02x} is not accepted: exception {bad[1]['exc']}" if bad else "",
               detail="each of the bytes RFC 9112 7.1.1 allows in a chunk extension, alone in an extension (the decoder inspects extensions byte-wise)")
@@ -480,6 +490,7 @@ def check(ctx):
 
 
 MUTANTS = [
+    Mutant("trailer-lines-restricted-to-token-bytes", HTTP, "            self._trailerHeaders.append(self._buffer[0:eolIndex])\n", "            if bytes(self._buffer[0:eolIndex]).translate(None, _chunkExtChars + b\":\") != b\"\":\n                raise _MalformedChunkedDataError(\"Bad trailer.\")\n            self._trailerHeaders.append(self._buffer[0:eolIndex])\n"),
     Mutant("F22t-revert-trailer-line-consumed-before-the-limit-test", HTTP, '            receivedSize = self._receivedTrailerHeadersSize + eolIndex + 2\n            if receivedSize > self._maxTrailerHeadersSize:\n                raise _MalformedChunkedDataError("Trailer headers data is too long.")\n            self._trailerHeaders.append(self._buffer[0:eolIndex])\n            del self._buffer[0 : eolIndex + 2]\n            self._start = 0\n            self._receivedTrailerHeadersSize = receivedSize\n',
            '            self._trailerHeaders.append(self._buffer[0:eolIndex])\n            del self._buffer[0 : eolIndex + 2]\n            self._start = 0\n            self._receivedTrailerHeadersSize += eolIndex + 2\n            if self._receivedTrailerHeadersSize > self._maxTrailerHeadersSize:\n                raise _MalformedChunkedDataError("Trailer headers data is too long.")\n', expect_rule="absorbing/no-consumption-before-reject"),
     Mutant("F22t-revert-seen-by-the-bounded-layer", HTTP, '            receivedSize = self._receivedTrailerHeadersSize + eolIndex + 2\n            if receivedSize > self._maxTrailerHeadersSize:\n                raise _MalformedChunkedDataError("Trailer headers data is too long.")\n            self._trailerHeaders.append(self._buffer[0:eolIndex])\n            del self._buffer[0 : eolIndex + 2]\n            self._start = 0\n            self._receivedTrailerHeadersSize = receivedSize\n',
